@@ -98,7 +98,10 @@ def main(argv=None):
         print('HARNESS-ERROR prepare/import failed: %r' % (e,))
         return 2
 
-    work = os.path.join(ROOT, '.work', prop)
+    # VERIF_SCRATCH: experiments that run several checks of one property side by side (tools/detect_rate.py) keep their scratch,
+    # replay and evidence files apart from the registered ones
+    OUT = os.environ.get('VERIF_SCRATCH') or ROOT
+    work = os.path.join(OUT, '.work', prop)
     shutil.rmtree(work, ignore_errors=True)
     os.makedirs(work)
     budget = float(os.environ.get('VERIF_BUDGET_S', '1500' if a.tier == 'quick' else '14000'))
@@ -147,7 +150,7 @@ def main(argv=None):
                 cur = out + '.cur'
                 info = ''
                 if os.path.exists(cur):
-                    keep = os.path.join(ROOT, 'replay', '%s-crash-%s.json' % (prop, case_hash(json.load(open(cur)))))
+                    keep = os.path.join(OUT, 'replay', '%s-crash-%s.json' % (prop, case_hash(json.load(open(cur)))))
                     os.makedirs(os.path.dirname(keep), exist_ok=True)
                     shutil.copy(cur, keep)
                     info = ' last case saved to %s' % keep
@@ -210,13 +213,13 @@ def main(argv=None):
     # one replay per bucket
     seen = set()
     vlines = []
-    os.makedirs(os.path.join(ROOT, 'replay'), exist_ok=True)
+    os.makedirs(os.path.join(OUT, 'replay'), exist_ok=True)
     for v in violations:
         key = (v['sub'], v['bucket'])
         if key in seen:
             continue
         seen.add(key)
-        path = os.path.join(ROOT, 'replay', '%s-%s.json' % (prop, case_hash([v['sub'], v['case']])))
+        path = os.path.join(OUT, 'replay', '%s-%s.json' % (prop, case_hash([v['sub'], v['case']])))
         with open(path, 'w') as f:
             json.dump({'property': prop, 'sub': v['sub'], 'bucket': v['bucket'], 'msg': v['msg'],
                        'case': v['case']}, f, indent=1)
@@ -251,8 +254,8 @@ def main(argv=None):
         'wall_s': round(time.time() - t0, 2),
         'violations': len(vlines),
     }
-    os.makedirs(os.path.join(ROOT, 'evidence'), exist_ok=True)
-    with open(os.path.join(ROOT, 'evidence', prop + '.json'), 'w') as f:
+    os.makedirs(os.path.join(OUT, 'evidence'), exist_ok=True)
+    with open(os.path.join(OUT, 'evidence', prop + '.json'), 'w') as f:
         json.dump(jsonable(evidence), f, indent=1, sort_keys=True)
 
     for k, cnt in sorted(known.items()):
